@@ -76,7 +76,9 @@ class Hist:
         self.fsize = {}               # (path, folded name) -> approximate size
         self.sizes = {}               # (path, folded) -> approx size
         self.max_handles = max_handles
-        self.pool = names or [b"alpha", b"Beta", b"gamma.txt", b"DELTA", b"e", b"file_with_a_long_name_of_30_ch", b"x1", b"x2", b"readme", b"\xe9t\xe9"]
+        self.pool = names or [b"alpha", b"Beta", b"gamma.txt", b"DELTA", b"e", b"file_with_a_long_name_of_30_ch", b"x1", b"x2", b"readme", b"\xe9t\xe9",
+                                  # Latin-1 letters at the edges of the ranges the international upper-casing treats (224..254 except 247)
+                                  b"\xe0\xfe", b"\xc0\xde", b"\xf7\xff\xdf", b"z\xe1{`"]
         self.big = big
         self.use_dirs = dirs
         self.bs = 512 if flav & 1 else 488
